@@ -89,7 +89,7 @@ func c14(c *an.Ctx) {
 			}
 			s := appendTo("res")(f)
 			f.Guarded(r, s, "identifier listed only when an expiry predicate holds",
-				an.AtomLike(`\.IsExpired\(\)$`, true), an.AtomLike(`\.Expired\(\)$`, true), an.AtomLike(`^recv\.nilShardIsExpired\(`, true))
+				an.AtomLike(`\.IsExpired\(\)$`, true), an.AtomLike(`\.Expired\(\)$`, true), an.AtomLike(`^(recv|engine)\.nilShardIsExpired\(`, true))
 		}
 	}
 	// ---------------------------------------------------------------- R2
